@@ -990,7 +990,7 @@ class Gen:
             return self.foreach_loop(sc, d, fret)
         if in_loop and x < 0.98:
             self.note("break/continue")
-            return [["if", self.expr("W", sc, 1), [[r.choice(["break", "continue"])]], []]]
+            return [["if", self.expr("W", sc, 1), [["break" if in_loop == "break-only" else r.choice(["break", "continue"])]], []]]
         if fret is not False and x < 0.99:
             self.note("return")
             return [["if", self.expr("W", sc, 1), [["return", None if fret is None else self.expr(fret, sc, 2)]], []]]
@@ -1064,7 +1064,11 @@ class Gen:
         if idx:
             inner.vars[idx] = "Z"
         self.note("foreach")
-        body = [["print", V(name)]] + ([["print", V(idx)]] if idx else []) + self.stmts(inner, r.randint(0, 2), d - 1, True, fret)
+        loop_ctx = True
+        if self.avoid is not None and src[0] not in ("var", "txt", "list", "empty") and \
+                self.avoid("stmt=FOREACH over=%s in=concat_tt body=continue" % ("Text" if et == "C" and src and tc_type(src, sc) == "T" else "Liste")):
+            loop_ctx = "break-only"   # a listed finding: `continue` over an iterated expression with operand temporaries
+        body = [["print", V(name)]] + ([["print", V(idx)]] if idx else []) + self.stmts(inner, r.randint(0, 2), d - 1, loop_ctx, fret)
         return [["foreach", et, name, idx, src, body]]
 
     def func(self, sc):
